@@ -21,16 +21,26 @@ FEATURES = ('select', 'while', 'call', 'exitcycle', 'section', 'fcall', 'twod', 
 
 
 def roundtrip(text):
-    """Record t1, t2 (lines) and the structural exports of the two IRs."""
+    """Record t1, t2 (lines), the structural exports of the two IRs and rb = "the written text was read back"."""
     from loki import Sourcefile
     from loki.frontend import FP
     sf1 = Sourcefile.from_source(text, frontend=FP)
     ir1 = T.export_ir(sf1)
     t1 = sf1.to_fortran()
-    sf2 = Sourcefile.from_source(t1, frontend=FP)
-    ir2 = T.export_ir(sf2)
-    t2 = sf2.to_fortran()
-    return {'t1': [T._ascii(l) for l in t1.split('\n')], 't2': [T._ascii(l) for l in t2.split('\n')], 'ir1': ir1, 'ir2': ir2}
+    rec = {'t1': [T._ascii(l) for l in t1.split('\n')], 't2': [], 'ir1': ir1, 'ir2': [], 'rb': True, 'gf': True, '_t1': t1, '_err': ''}
+    try:
+        sf2 = Sourcefile.from_source(t1, frontend=FP)
+    except Exception as e:  # pylint: disable=broad-except
+        rec['rb'] = False
+        rec['_err'] = f'{type(e).__name__}: {e}'
+        return rec
+    rec['ir2'] = T.export_ir(sf2)
+    rec['t2'] = [T._ascii(l) for l in sf2.to_fortran().split('\n')]
+    return rec
+
+
+# minimum number of named constructs a run must have taken through the round trip (vacuity guard)
+NAMED_MINIMUM = {'named-if:elseif>=2': 16, 'named-if': 32, 'named-do': 3, 'named-select': 2, 'named-associate': 1, 'nested-named': 1}
 
 
 def gen_texts(ctx, n_fm, n_long):
@@ -47,6 +57,12 @@ def gen_texts(ctx, n_fm, n_long):
         prog = g.program(nstmts=ctx.rng.randint(5, 9), depth=2, nest_levels=ctx.rng.choice([0, 4]))
         out.append(('generated:long', G.long_program_text(prog, ctx.rng)))
     return out
+
+
+def named_texts(ctx):
+    """The deterministic universe of named constructs (lib_text.named_construct_texts); thorough: three rounds with other
+    conditions."""
+    return [('generated:' + tag, text) for tag, text in T.named_construct_texts(ctx.rng, rounds=1 if ctx.quick else 3)]
 
 
 def kind_of_line(line):
@@ -85,6 +101,17 @@ def first_expr_diff(a, b):
     return cls_at(a), cls_at(b)
 
 
+def key_tag(origin):
+    """Normal form of the origin of a case for violation keys (read-back / written-text-compiles)."""
+    if not origin.startswith('generated:'):
+        return 'repo'
+    tag = origin.split(':', 1)[1]
+    m = re.match(r'named-if:elseif=(\d):else=\d:(.*)$', tag)
+    if m:
+        return 'named-if:elseif' + ('>=2' if int(m.group(1)) >= 2 else '<2') + (':' + m.group(2) if m.group(2) == 'in-named-if-branch' else '')
+    return tag
+
+
 def only_logical_nesting(a, b):
     """Key naming only: the two node images differ just in how .and. / .or. operands are grouped."""
     def flat(x):
@@ -108,6 +135,7 @@ def run(ctx):
         if os.environ.get('C02_N'):          # development: smaller generated corpus
             nfm, nlong = int(os.environ['C02_N']), max(1, int(os.environ['C02_N']) // 4)
         items += gen_texts(ctx, nfm, nlong)
+        items += named_texts(ctx)
         files = T.repo_fortran_sources()
         for p in files:
             with open(p, errors='replace') as fh:
@@ -127,23 +155,59 @@ def run(ctx):
             from loki.frontend import FP
             Sourcefile.from_source(text, frontend=FP)
         except Exception as e:  # pylint: disable=broad-except
-            if origin.startswith('generated'):
+            if origin.startswith('generated') and not origin.startswith('generated:probe'):
                 raise MachineryError(f'C02 generator produced a program the FP frontend rejects: {e}\n{text[:2000]}') from e
-            rejected_by_frontend.append(origin)
+            rejected_by_frontend.append(origin + (f' ({type(e).__name__})' if origin.startswith('generated:probe') else ''))
             continue
         try:
             rec = roundtrip(text)
         except Exception as e:  # pylint: disable=broad-except
-            # the frontend accepted the source but its own output cannot be read back / written again
+            # the frontend accepted the source but writing it (or writing what was read back) raises
             first = re.sub(r'\d+', 'N', str(e).strip().split('\n')[0])[:60]
-            ctx.violation(f'roundtrip:raises:{type(e).__name__}:{first}', f'{origin}: reading back / re-writing the generated text raised '
+            ctx.violation(f'roundtrip:raises:{type(e).__name__}:{first}', f'{origin}: writing the IR (first or second pass) raised '
                           f'{type(e).__name__}: {str(e)[:600]}', {'origin': origin, 'text': text})
             continue
         cases.append(rec)
         meta.append((origin, text))
     ctx.cover['loki_wall_s'] = round(time.time() - t0, 1)
-    verdicts = ctx.validate('Trace_RoundTrip', 'Trace_RoundTrip', cases, timeout=1800, per_shard_min=8)
-    stats = {'text-fixpoint': 0, 'ir-identical': 0}
+    # a compiler's opinion on the written text, for the self-contained generated sources whose original it accepts
+    import concurrent.futures as cf
+    gen_idx = [i for i, (o, _t) in enumerate(meta) if o.startswith('generated')]
+
+    def compile_pair(i):
+        ok0, err0 = T.gfortran_syntax(ctx.work, f'gf-{i}-orig', [('orig.f90', meta[i][1])], width='none')
+        if not ok0:
+            return i, None, err0
+        ok1, err1 = T.gfortran_syntax(ctx.work, f'gf-{i}-t1', [('t1.f90', cases[i]['_t1'])], width='none')
+        return i, ok1, err1
+    with cf.ThreadPoolExecutor(max_workers=8) as ex:
+        for i, ok, err in ex.map(compile_pair, gen_idx):
+            if ok is None and not meta[i][0].startswith('generated:probe'):
+                raise MachineryError(f'C02 generator produced a program gfortran rejects:\n{err}\n{meta[i][1][:2000]}')
+            if ok is not None:
+                cases[i]['gf'] = bool(ok)
+                cases[i]['_gferr'] = err
+    ctx.cover['written_texts_compiled'] = sum(1 for i in gen_idx if '_gferr' in cases[i])
+    # vacuity guard: named constructs that went through the round trip
+    named = {}
+    for o, _t in meta:
+        if not o.startswith('generated:named') and not o.startswith('generated:nested'):
+            continue
+        tag = o.split(':', 1)[1]
+        fam = tag.split(':')[0]
+        fam = 'named-do' if fam.startswith('named-do') else fam
+        named[fam] = named.get(fam, 0) + 1
+        m = re.search(r'elseif=(\d)', tag)
+        if m and int(m.group(1)) >= 2:
+            named['named-if:elseif>=2'] = named.get('named-if:elseif>=2', 0) + 1
+    ctx.cover['named_constructs_round_tripped'] = named
+    if not ctx.replay and not os.environ.get('C02_SKIP_GUARD'):
+        short = {k: (named.get(k, 0), v) for k, v in NAMED_MINIMUM.items() if named.get(k, 0) < v}
+        if short:
+            raise MachineryError(f'vacuity guard: too few named constructs went through the round trip (have, need): {short}')
+    verdicts = ctx.validate('Trace_RoundTrip', 'Trace_RoundTrip', [{k: v for k, v in c.items() if not k.startswith('_')} for c in cases],
+                            timeout=1800, per_shard_min=8)
+    stats = {'text-fixpoint': 0, 'ir-identical': 0, 'read-back': 0, 'written-text-compiles': 0}
     for i, (origin, text) in enumerate(meta):
         ok, _clause, n = verdicts[i][:3]
         if ok:
@@ -152,7 +216,18 @@ def run(ctx):
         for k in range(1, n + 1):
             _f, clause, pos = verdicts[f'{i}#{k}'][:3]
             stats[clause] += 1
-            if clause == 'text-fixpoint':
+            tag = key_tag(origin)
+            if clause == 'read-back':
+                first = re.sub(r'\d+', 'N', c['_err'].split('\n')[0])[:70]
+                ctx.violation(f'read-back:{tag}:{first}',
+                              f'{origin}: the text written by fgen is not read back by the frontend: {c["_err"][:600]}\n--- written text ---\n'
+                              + c['_t1'][:2500], {'origin': origin, 'text': text})
+            elif clause == 'written-text-compiles':
+                first = next((l.strip() for l in c.get('_gferr', '').splitlines() if l.startswith('Error')), '')
+                ctx.violation(f'written-text-compiles:{tag}:' + re.sub(r'\d+', 'N', first)[:70],
+                              f'{origin}: gfortran accepts the original text but rejects the text written by fgen:\n{c.get("_gferr", "")[:1200]}\n'
+                              f'--- written text ---\n' + c['_t1'][:2500], {'origin': origin, 'text': text})
+            elif clause == 'text-fixpoint':
                 a = c['t1'][pos - 1] if pos <= len(c['t1']) else '<end of text>'
                 b = c['t2'][pos - 1] if pos <= len(c['t2']) else '<end of text>'
                 ka, kb = kind_of_line(a) if pos <= len(c['t1']) else 'end', kind_of_line(b) if pos <= len(c['t2']) else 'end'
@@ -186,6 +261,11 @@ def run(ctx):
         ctx.sample({'origin': meta[0][0], 't1_head': cases[0]['t1'][:6], 'ir1_head': [x[:120] for x in cases[0]['ir1'][:6]]})
     ctx.assumptions += [
         'read = Sourcefile.from_source(frontend=FP), write = Sourcefile.to_fortran() (default FortranStyle)',
+        'clauses: the written text is read back by the frontend (read-back); gfortran -fsyntax-only accepts the written text of '
+        'self-contained generated sources whose original it accepts (written-text-compiles); text-fixpoint; ir-identical',
+        'named constructs: deterministic universe (named IF with 0..3 ELSE IF, with/without ELSE, in four contexts; named DO / DO WHILE '
+        'with EXIT/CYCLE; named SELECT CASE, ASSOCIATE, WHERE; nested) with a minimum per run; EXIT/CYCLE <name> and BLOCK are probes '
+        'that the FP frontend may reject (counted)',
         'structural export: node kinds, nesting, dataclass attributes (labels, names, flags, comment/pragma text), expression trees by '
         'class and constructor arguments, declared symbol attributes; exempt: Source objects, symbol tables, parent links',
         'exempt: empty lines at the two ends of a text / empty-line comments at the end of an IR (the frontend strips the text it '
@@ -207,8 +287,11 @@ def selftest(ctx):
     c['ir2'][k] = c['ir2'][k].replace('IntLiteral[2]', 'IntLiteral[3]')
     b.append(('expression tree of the re-read IR changed', c, 'ir-identical'))
     c = copy.deepcopy(good); del c['ir2'][len(c['ir2']) // 2]; b.append(('node missing in the re-read IR', c, 'ir-identical'))
+    c = copy.deepcopy(good); c['rb'] = False; c['t2'] = []; c['ir2'] = []; b.append(('written text not read back', c, 'read-back'))
+    c = copy.deepcopy(good); c['gf'] = False; b.append(('compiler verdict on the written text flipped', c, 'written-text-compiles'))
     ok_pad = copy.deepcopy(good); ok_pad['t2'] = [''] + ok_pad['t2'] + ['', '']; ok_pad['ir2'] = ok_pad['ir2'] + ['BLANK']
-    v = ctx.validate('Trace_RoundTrip', 'Trace_RoundTrip', [good, ok_pad] + [x[1] for x in b], shards=1)
+    strip = lambda c_: {k_: v_ for k_, v_ in c_.items() if not k_.startswith('_')}
+    v = ctx.validate('Trace_RoundTrip', 'Trace_RoundTrip', [strip(x) for x in [good, ok_pad] + [x[1] for x in b]], shards=1)
     if not v[0][0] or not v[1][0]:
         raise MachineryError(f'selftest: an uncorrupted / exempt case is rejected: {v[0]} {v[1]}')
     missed = []
